@@ -1134,15 +1134,24 @@ impl Gen<'_> {
     }
     fn free_nodes(&self, s: usize) -> Vec<usize> {
         let free = self.allow_conflicts;
-        self.spec.view(self.st(s)).nodes.keys().copied().filter(|n| free || self.locked_n.get(n).is_none_or(|o| *o == s)).collect()
+        let begin = self.spec.txs[s].as_ref().map(|t| t.begin_seq);
+        let stale = |is_edge: bool, slot: usize| -> bool {
+            // modified by a commit after this transaction began: writing it now would be a
+            // write-write conflict, which these histories leave to C03
+            begin.is_some_and(|b| self.spec.commit_log.iter().any(|(seq, ents)| *seq > b && ents.contains(&(is_edge, slot))))
+        };
+        self.spec.view(self.st(s)).nodes.keys().copied().filter(|n| free || (self.locked_n.get(n).is_none_or(|o| *o == s) && !stale(false, *n))).collect()
     }
     fn free_edges(&self, s: usize) -> Vec<usize> {
         let v = self.spec.view(self.st(s));
         if self.allow_conflicts {
             return v.edges.keys().copied().collect();
         }
+        let begin = self.spec.txs[s].as_ref().map(|t| t.begin_seq);
+        let stale = |is_edge: bool, slot: usize| -> bool { begin.is_some_and(|b| self.spec.commit_log.iter().any(|(seq, ents)| *seq > b && ents.contains(&(is_edge, slot)))) };
         v.edges
             .iter()
+            .filter(|(e, x)| !stale(true, **e) && !stale(false, x.src) && !stale(false, x.dst))
             .filter(|(e, x)| self.locked_e.get(e).is_none_or(|o| *o == s) && self.locked_n.get(&x.src).is_none_or(|o| *o == s) && self.locked_n.get(&x.dst).is_none_or(|o| *o == s))
             .map(|(e, _)| *e)
             .collect()
@@ -1169,6 +1178,12 @@ impl Gen<'_> {
                 }
                 HOp::SetEdgePropQ(_, e, _) => {
                     self.locked_e.insert(*e, s);
+                    // its endpoints must not be detach-deleted by someone else meanwhile
+                    if let Some(x) = self.spec.view(st).edges.get(e) {
+                        let (a, b) = (x.src, x.dst);
+                        self.locked_n.entry(a).or_insert(s);
+                        self.locked_n.entry(b).or_insert(s);
+                    }
                 }
                 HOp::CreateEdge(_, a, b) | HOp::CreateEdgeQ(_, a, b, _) => {
                     // endpoints must not be deleted by someone else meanwhile
@@ -1205,6 +1220,11 @@ impl Gen<'_> {
         let nodes = self.free_nodes(s);
         let edges = self.free_edges(s);
         let in_tx = self.spec.txs[s].is_some();
+        let mut incident_of: BTreeMap<usize, Vec<usize>> = BTreeMap::new();
+        for (e, x) in &self.spec.view(self.st(s)).edges {
+            incident_of.entry(x.src).or_default().push(*e);
+            incident_of.entry(x.dst).or_default().push(*e);
+        }
         let rng = &mut *self.rng;
         let pickn = |rng: &mut Prng| -> Option<usize> { if nodes.is_empty() { None } else { Some(*rng.pick(&nodes)) } };
         Some(match kind {
@@ -1218,7 +1238,14 @@ impl Gen<'_> {
             7 => HOp::RemovePropQ(s, pickn(rng)?, rng.below(2) as u8),
             8 => HOp::AddLabelQ(s, pickn(rng)?, rng.below(3) as u8),
             9 => HOp::RemoveLabelQ(s, pickn(rng)?, rng.below(3) as u8),
-            10 => HOp::DeleteNodeQ(s, pickn(rng)?),
+            10 => {
+                // every incident edge (in this session's view) must be free as well
+                let cands: Vec<usize> = nodes.iter().copied().filter(|n| incident_of.get(n).is_none_or(|es| es.iter().all(|e| edges.contains(e)))).collect();
+                if cands.is_empty() {
+                    return None;
+                }
+                HOp::DeleteNodeQ(s, *rng.pick(&cands))
+            }
             11 => HOp::TripleInsert(s, rng.below(u64::from(N_TRIPLES)) as u8),
             12 => HOp::TripleDelete(s, rng.below(u64::from(N_TRIPLES)) as u8),
             // direct API: only outside a transaction of this session and on unlocked targets
